@@ -106,6 +106,12 @@ def proof_stage(pid, tier="quick"):
 
 
 def main(argv=None):
+    import faulthandler
+    import signal
+    try:
+        faulthandler.register(signal.SIGUSR1, all_threads=True)  # kill -USR1 <pid> dumps every thread's stack
+    except Exception:  # noqa: BLE001
+        pass
     ap = argparse.ArgumentParser()
     ap.add_argument("prop")
     ap.add_argument("--tier", default=os.environ.get("VERIF_TIER", "quick"))
@@ -209,4 +215,9 @@ def main(argv=None):
 
 
 if __name__ == "__main__":
-    sys.exit(main())
+    _rc = main()
+    # worker threads of an implementation that deadlocked (reported above) must not keep the check alive:
+    # interpreter shutdown would join them forever
+    sys.stdout.flush()
+    sys.stderr.flush()
+    os._exit(_rc if isinstance(_rc, int) else 0)
